@@ -13,7 +13,7 @@ from .evalrun import EvalInterp, construct
 from .resultrun import ResultInterp, Tagged, metric_objs
 
 INFO = {
-    "explanation": "Rounds 4/5: parameter sets tell parameters of one type apart (three boolean patterns, explicit NONE next to a non-NONE default, thresholds 0.0). Writer/reader table agreement decided by interpreting both sides: for each of the 11 serialisable classes an object is built by interpreting its constructor on parameters varied away from their defaults (a truthy set and a set of falsy-but-non-default values such as threshold 0.0, empty metric list, False flags), then to_yaml (-> tagged mapping of _yaml_repr) and from_yaml (cls(**mapping)) are interpreted with stub representer/constructor: (R19.1) loading succeeds (keys are constructor parameters, nothing required is missing), (R19.2) the loaded object has identical settings, and saving it again gives the identical mapping; the tag is '!<ClassName>'; (R19.3) enum classes serialise the member name and load the member of that name (all members of the 7 enum classes); (R19.4) shipped YAML files are composed (not constructed): every tag names a registered class, mapping keys are constructor parameters of that class, required parameters are present, tagged scalars name existing enum members; (R19.5) constructors and from_yaml do not mutate default arguments (a load does not change what later default-constructed objects contain). R19.8: no stored sequence setting is ordered by iterating a set (found and repaired: LabelGroup kept list(set(labels))); the round trips also run on label sets with colliding hashes ([7, 15]). Further: R19.6 (YAML object state at load and dump, by abstract run), R19.7 (file names of named configurations: append-only, injective). Round 6: (R19.6 writes) _save_yaml is run on the abstract file system (target absent/existing, str/Path; temporary files, os.replace, copies, unlinks followed): afterwards the target holds the dump of the given object and nothing else is left; R19.4 asks the class's own from_yaml about keys the constructor does not name. Round 7: (R19.2) settings that are functions of small arguments (zero-TP handling: tp x instance counts) are compared by their answers; parameter sets with a fallback plus exactly one scenario. Round 8: classes that register for serialisation and are not in the rule table get their parameter sets from their constructor (defaults, the metrics the class accepts, both booleans); inherited _yaml_repr counts.",
+    "explanation": "Rounds 4/5: parameter sets tell parameters of one type apart (three boolean patterns, explicit NONE next to a non-NONE default, thresholds 0.0). Writer/reader table agreement decided by interpreting both sides: for each of the 11 serialisable classes an object is built by interpreting its constructor on parameters varied away from their defaults (a truthy set and a set of falsy-but-non-default values such as threshold 0.0, empty metric list, False flags), then to_yaml (-> tagged mapping of _yaml_repr) and from_yaml (cls(**mapping)) are interpreted with stub representer/constructor: (R19.1) loading succeeds (keys are constructor parameters, nothing required is missing), (R19.2) the loaded object has identical settings, and saving it again gives the identical mapping; the tag is '!<ClassName>'; (R19.3) enum classes serialise the member name and load the member of that name (all members of the 7 enum classes); (R19.4) shipped YAML files are composed (not constructed): every tag names a registered class, mapping keys are constructor parameters of that class, required parameters are present, tagged scalars name existing enum members; (R19.5) constructors and from_yaml do not mutate default arguments (a load does not change what later default-constructed objects contain). R19.8: no stored sequence setting is ordered by iterating a set (found and repaired: LabelGroup kept list(set(labels))); the round trips also run on label sets with colliding hashes ([7, 15]). Further: R19.6 (YAML object state at load and dump, by abstract run), R19.7 (file names of named configurations: append-only, injective). Round 6: (R19.6 writes) _save_yaml is run on the abstract file system (target absent/existing, str/Path; temporary files, os.replace, copies, unlinks followed): afterwards the target holds the dump of the given object and nothing else is left; R19.4 asks the class's own from_yaml about keys the constructor does not name. Round 7: (R19.2) settings that are functions of small arguments (zero-TP handling: tp x instance counts) are compared by their answers; parameter sets with a fallback plus exactly one scenario. Round 8: classes that register for serialisation and are not in the rule table get their parameter sets from their constructor (defaults, the metrics the class accepts, both booleans); inherited _yaml_repr counts. Round 9: R15.10 delegated - what is saved are the settings, what runs may be something bound from them at construction.",
     "trusted_base": ["ruamel.yaml represents/constructs tagged mappings and scalars faithfully and recursively", "Python semantics of the modelled AST subset"],
     "assumptions": ["nested configurable objects round-trip by their own class's rule (compositional)"],
     "not_decided": ["ruamel's own behaviour", "identical results on every input follows from identical settings, not observed"],
